@@ -18,9 +18,16 @@ from scenarios import cluster
 from scenarios.common import v
 
 
-def make_gen(tag, n, ret, fail_at):
-  """Generator of (tag, i); raises at fail_at; returns ('ret', tag) if ret."""
+def make_gen(tag, n, ret, fail_at, stall_at=None):
+  """Generator of (tag, i); raises at fail_at; returns ('ret', tag) if ret.
+
+  With stall_at=k the source stalls (for 10^6 simulated seconds) before
+  producing element k: a request for more than k elements then has to wait.
+  """
+  import time
   for i in range(n):
+    if stall_at is not None and i == stall_at:
+      time.sleep(1e6)
     if fail_at is not None and i == fail_at:
       raise ValueError(f'gen {tag} failed at {i}')
     yield (tag, i)
@@ -77,6 +84,9 @@ class PrefetchFamily(common.Family):
     if scenario == 'shutdown':
       cfg['delay'] = rng.randrange(0, 600)
       cfg['call_timeout'] = rng.choice([5.0, 20.0])
+      # half of the time the source stalls, so that a next-batch request is
+      # really waiting when the shutdown arrives
+      cfg['stall_at'] = rng.randrange(0, n + 1) if rng.random() < 0.5 else None
     return cfg
 
   # ------------------------------------------------------------------------
@@ -107,8 +117,8 @@ class PrefetchFamily(common.Family):
     scenario = cfg['scenario']
     obs = {'streams': {}, 'inits': {}, 'flags': {}}
 
-    def init(tag, n, ret, fail_at=None):
-      task = lazy_fns.trace(make_gen)(tag, n, ret, fail_at)
+    def init(tag, n, ret, fail_at=None, stall_at=None):
+      task = lazy_fns.trace(make_gen)(tag, n, ret, fail_at, stall_at)
       try:
         r = client.call(task, courier_method='init_generator').result()
         obs['inits'][tag] = ['ok', repr(r)]
@@ -198,7 +208,7 @@ class PrefetchFamily(common.Family):
       t2 = threading.Thread(target=second, name='clientB')
       t1.start(); t2.start(); t1.join(); t2.join()
     elif scenario == 'shutdown':
-      ok = init('A', cfg['n'], cfg['ret'])
+      ok = init('A', cfg['n'], cfg['ret'], stall_at=cfg.get('stall_at'))
 
       def killer():
         sim.wait_steps(cfg['delay'])
@@ -210,6 +220,11 @@ class PrefetchFamily(common.Family):
       if ok:
         pull('A')
       t.join()
+      # stop() only requests the shutdown; the server's own thread then stops
+      # the prefetch.  Bounded liveness: 50 simulated seconds after the request
+      # no next-batch request may still be blocked.
+      import time
+      time.sleep(50.0)
     # the prefetch thread of a finished / replaced generator must be gone
     th = srv._enqueue_thread  # pylint: disable=protected-access
     obs['enqueue_alive'] = bool(th is not None and th.is_alive())
